@@ -144,3 +144,84 @@ func judgeOptimal(r *core.Run, knownIDs map[string]string) func(c alnCase, res a
 		return out
 	}
 }
+
+// matrixMutationHistories: ONE map object is used for a whole history and its values are
+// rewritten in place between the calls (same keys, same length). Every call must be judged as if
+// the matrix had been passed for the first time: a cache keyed by the map's identity shows here.
+type alnMutHist struct {
+	Params [][4]int `json:"matrix_params_per_call"` // match, mismatch, gap, gap-open
+	Fn     []string `json:"fn_per_call"`
+	A      string   `json:"a"`
+	B      string   `json:"b"`
+}
+
+func matrixMutationHistories(r *core.Run, zeroOpen bool, judge func(c alnCase, res alnResult, changed bool) core.Outcome) {
+	params := [][4]int{{1, -1, -1, 0}, {2, -3, -2, 0}, {5, 0, -1, 0}, {1, -3, 0, 0}}
+	if !zeroOpen {
+		params = [][4]int{{1, -1, -1, -1}, {3, -3, -1, -2}, {2, 0, -2, -3}, {1, -1, 0, -1}}
+	}
+	pairs := [][2]string{{"ABBA", "ABA"}, {"AAB", "BAA"}, {"ABCAB*20", "ABCCB*19+A"}}
+	r.Bound("matrix-mutation", fmt.Sprintf("one matrix map rewritten in place between calls: every sequence of 2..3 parameter sets from %v x {Global, Local} per call x %d sequence pairs", params, len(pairs)))
+	core.Clause(r, "matrix-mutation-histories", core.Opts{Rule: "call histories in which the SAME map object carries different scores from call to call (keys and length unchanged); each call is judged against the reference for the scores it was given; non-trivial = all"},
+		func(emit func(alnMutHist) bool) {
+			for _, p := range pairs {
+				for n := 2; n <= 3; n++ {
+					sizes := make([]int, n)
+					for i := range sizes {
+						sizes[i] = len(params)
+					}
+					enum := func(f func(t []int) bool) {
+						t := make([]int, n)
+						for {
+							if !f(t) {
+								return
+							}
+							i := n - 1
+							for ; i >= 0; i-- {
+								t[i]++
+								if t[i] < sizes[i] {
+									break
+								}
+								t[i] = 0
+							}
+							if i < 0 {
+								return
+							}
+						}
+					}
+					enum(func(t []int) bool {
+						for fm := 0; fm < 1<<n; fm++ {
+							h := alnMutHist{A: p[0], B: p[1]}
+							for i, x := range t {
+								h.Params = append(h.Params, params[x])
+								h.Fn = append(h.Fn, bothFns[fm>>i&1])
+							}
+							if !emit(h) {
+								return false
+							}
+						}
+						return true
+					})
+				}
+			}
+		},
+		func(h alnMutHist) core.Outcome {
+			m := symMatrix(0, 0, 0, 0)
+			a, b := expandSeq(h.A), expandSeq(h.B)
+			for i, p := range h.Params {
+				fresh := symMatrix(float64(p[0]), float64(p[1]), float64(p[2]), float64(p[3]))
+				for k, v := range fresh {
+					m[k] = v // rewrite in place: same keys, same length
+				}
+				name := fmt.Sprintf("sym:%d:%d:%d:%d", p[0], p[1], p[2], p[3])
+				c := alnCase{h.Fn[i], core.S(a), core.S(b), name}
+				res, changed := runAlign(c, m)
+				o := judge(c, res, changed)
+				if o.Fail != "" && o.Known == "" {
+					o.Fail = fmt.Sprintf("call %d of a history that rewrites one matrix map in place (%v): %s", i+1, h.Params, o.Fail)
+					return o
+				}
+			}
+			return core.Outcome{Class: fmt.Sprint("calls=", len(h.Params)), Nontrivial: true, Evals: len(h.Params)}
+		})
+}
